@@ -580,7 +580,22 @@ pub fn run(tier: Tier) -> i32 {
             }
         }));
     }
-    if let Err(e) = require_nonzero(&stats, &["raw_strings", "token_strings", "damaged_texts", "byte_strings", "encoding_cases", "reference_cases", "reserved_name_strings", "accepted", "rejected", "accepted_and_compared"]) {
+    // (g) names that begin with a colon (":a" is a Name but no QName; a tokenizer that reports it as prefix "" + local
+    //     "a" makes <a></:a> and <:a></a> look like matching tags): every sequence of <= 5 (6) fragments
+    {
+        let menu: Vec<&str> = vec!["<a", "<:a", "<p:a xmlns:p='X'", ">", "/>", "</a>", "</:a>", "</p:a>", " :b='1'", " b='1'", " :xmlns='X'", "t"];
+        let gl = tier.pick(5, 6);
+        let gn = strings_count(menu.len() as u64, gl);
+        stats = stats.merge(par_range(&ctx, gn, |i, st| {
+            let t = nth_str(&menu, gl, i);
+            let fails = eval_text(&t, st);
+            st.bump("colon_name_strings");
+            for f in fails {
+                st.fail(&Case::Text(t.clone()), f);
+            }
+        }));
+    }
+    if let Err(e) = require_nonzero(&stats, &["raw_strings", "token_strings", "damaged_texts", "byte_strings", "encoding_cases", "reference_cases", "reserved_name_strings", "colon_name_strings", "accepted", "rejected", "accepted_and_compared"]) {
         eprintln!("MACHINERY: {}", e);
         return 2;
     }
@@ -590,7 +605,7 @@ pub fn run(tier: Tier) -> i32 {
         "evaluations": stats.evals,
         "distinct_nontrivial": total,
         "samples": samples,
-        "rule": format!("(a) every string of length <= {} over 18 markup symbols; (b) every sequence of <= {} fragments from a 39-item token menu (tags with synonymous prefixes, duplicate attributes / declarations, references incl. &#0; &#xD800; &#+65;, comments, PIs, CDATA, ]]>, DOCTYPEs, XML declarations 1.0 / 1.1); (c) every single-character deletion / duplication / replacement / insertion / truncation and 13 structural edits (incl. every end tag rewritten under another prefix / without prefix) of the default spellings of the C02 documents and of their spellings with one other prefix choice (thorough: of all their one-deviation spellings); (d) every byte string of length <= {} and 8 BOMs x 40 encoding labels x 3 bodies; (f) every sequence of <= {} fragments from a 26-item menu around the reserved names (xml / xmlns prefixes, the XML and xmlns namespaces, xmlns:p='', processing instructions called xml); (e) every code point 0..=0x110000 as a hexadecimal character reference in text, and decimal / hexadecimal / zero-padded references to the code points within 2 of every boundary of the XML Char production in text, attribute values and namespace URIs; each to parse and parse_fragment (text) / parse_bytes; oracle: no panic; texts the reference recogniser XmlRead classifies ill-formed for a reason in the property's catalogue are rejected; whatever is accepted equals the reference reader's tree (when it has one), passes validate_well_formed_document, has unique attributes / declarations, serialises, and reparses equal; distinct = distinct (entry point, resulting tree or error variant)", l, tl, bl, tier.pick(4, 5)),
+        "rule": format!("(a) every string of length <= {} over 18 markup symbols; (b) every sequence of <= {} fragments from a 39-item token menu (tags with synonymous prefixes, duplicate attributes / declarations, references incl. &#0; &#xD800; &#+65;, comments, PIs, CDATA, ]]>, DOCTYPEs, XML declarations 1.0 / 1.1); (c) every single-character deletion / duplication / replacement / insertion / truncation and 13 structural edits (incl. every end tag rewritten under another prefix / without prefix) of the default spellings of the C02 documents and of their spellings with one other prefix choice (thorough: of all their one-deviation spellings); (d) every byte string of length <= {} and 8 BOMs x 40 encoding labels x 3 bodies; (f) every sequence of <= {} fragments from a 26-item menu around the reserved names (xml / xmlns prefixes, the XML and xmlns namespaces, xmlns:p='', processing instructions called xml); (g) every sequence of <= {} fragments from a 12-item menu around names that begin with a colon; (e) every code point 0..=0x110000 as a hexadecimal character reference in text, and decimal / hexadecimal / zero-padded references to the code points within 2 of every boundary of the XML Char production in text, attribute values and namespace URIs; each to parse and parse_fragment (text) / parse_bytes; oracle: no panic; texts the reference recogniser XmlRead classifies ill-formed for a reason in the property's catalogue are rejected; whatever is accepted equals the reference reader's tree (when it has one), passes validate_well_formed_document, has unique attributes / declarations, serialises, and reparses equal; distinct = distinct (entry point, resulting tree or error variant)", l, tl, bl, tier.pick(4, 5), tier.pick(5, 6)),
     });
     ctx.finish(stats, cov, vec!["XmlRead answers Unknown for anything it does not positively classify; only IllFormed(reason in catalogue) creates an obligation".into(), "a process abort (stack overflow, allocation failure) would surface as a machinery error of the driver, never as a pass".into()])
 }
